@@ -506,7 +506,19 @@ def _execute(ctx, h, scratch):
     try:
         a = _import(h, main, data, "path", 0x4000, 0, probes, base)
     except Exception as e:
-        fail("import-of-own-dump-raises:" + type(e).__name__, "importing the dump raised %s: %s" % (type(e).__name__, str(e)[:120]), exc=type(e).__name__)
+        cls = "import-of-own-dump-raises:" + type(e).__name__
+        m_ = re.search(r"reference to invalid character number: line (\d+)", str(e))
+        if m_:
+            # which element carries the character reference XML 1.0 has no way to express (NUL, most C0 controls)?
+            try:
+                lines_ = data.decode("utf-8", "replace").splitlines()
+                ln_ = int(m_.group(1)) - 1
+                ctx_ = " ".join(lines_[max(0, ln_ - 2) : ln_ + 1])
+                if "<namerecord" in ctx_ and 'unicode="False"' in ctx_:
+                    cls = "ttx-dump-has-forbidden-character-reference:name-record-bytes"
+            except Exception:
+                pass
+        fail(cls, "importing the dump raised %s: %s" % (type(e).__name__, str(e)[:120]), exc=type(e).__name__)
         _known(h, res)
         return res
     base_calls = probes.pop("_cdata_calls", 0)
